@@ -47,7 +47,8 @@ NoCust == [loc |-> "none", k |-> 0, att |-> 0, pri |-> 0, dts |-> 0, mark |-> FA
            pass |-> 0]     \* pass: scans of its channel that ended while it sat there past its deadline (AQSDone)
 NewChan(t) == [t |-> t, st |-> "new", paused |-> FALSE, ppend |-> {}, emptying |-> FALSE, recv |-> 0, nreq |-> 0, nto |-> 0]
 NewClient == [c |-> "", tmo |-> 0, sample |-> 0, rdy |-> 0, pend |-> {}, ready |-> FALSE, sends |-> <<>>,
-              nfin |-> 0, nreq |-> 0, nmsg |-> 0, sigAt |-> 0, sigNow |-> 0, evalAt |-> 0, closing |-> FALSE]
+              nfin |-> 0, nreq |-> 0, nmsg |-> 0, sigAt |-> 0, sigNow |-> 0, evalAt |-> 0, closing |-> FALSE,
+              was |-> {}, clsFresh |-> FALSE]
 StaleSlack == 1000000   \* microseconds: see AKRecv
 
 Init == /\ minfo = <<>> /\ tq = {} /\ owed = <<>> /\ copying = <<>>
@@ -216,12 +217,14 @@ ACRecvDeferred(c, id, now) ==
 AKEval(k, ready, rdy, inflight, paused, at) ==
   /\ Has(cl, k)
   /\ LET c == cl[k].c IN
+       \* (the pump reads the count and the state first and reports afterwards: what it reports may be as old as its own
+       \*  previous report -- `was`: the counts there have been since then; `clsFresh`: CLS came after it)
        ready => /\ ~paused /\ rdy > 0 /\ inflight < rdy
-                /\ ~cl[k].closing
-                /\ rdy \in {cl[k].rdy} \cup cl[k].pend
+                /\ (cl[k].closing => cl[k].clsFresh)
+                /\ rdy \in {cl[k].rdy} \cup cl[k].pend \cup cl[k].was
                 /\ Has(chan, c) => (FALSE \in {chan[c].paused} \cup chan[c].ppend)
                 /\ Cardinality(HeldBy(k)) < rdy
-  /\ cl' = [cl EXCEPT ![k].ready = ready, ![k].evalAt = at]
+  /\ cl' = [cl EXCEPT ![k].ready = ready, ![k].evalAt = at, ![k].was = {}, ![k].clsFresh = FALSE]
   /\ UNCHANGED <<minfo, tq, owed, copying, chan, top, cust, done, stash>>
 
 \* C02: only a queued message is handed out.  C03: one message per positive readiness evaluation.
@@ -405,13 +408,13 @@ AKSub(k, c) ==
 
 \* C03: once CLS has been processed the consumer is never again found ready for a message, whatever it sends (AKEval)
 AKCls(k) ==
-  /\ cl' = IF Has(cl, k) THEN [cl EXCEPT ![k].closing = TRUE] ELSE cl
+  /\ cl' = IF Has(cl, k) THEN [cl EXCEPT ![k].closing = TRUE, ![k].clsFresh = TRUE] ELSE cl
   /\ UNCHANGED <<minfo, tq, owed, copying, chan, top, cust, done, stash>>
 AKRdyBegin(k, n) ==
   /\ cl' = IF Has(cl, k) THEN [cl EXCEPT ![k].pend = @ \cup {n}] ELSE cl
   /\ UNCHANGED <<minfo, tq, owed, copying, chan, top, cust, done, stash>>
 AKRdyEnd(k, n) ==
-  /\ cl' = IF Has(cl, k) THEN [cl EXCEPT ![k].rdy = n, ![k].pend = @ \ {n}] ELSE cl
+  /\ cl' = IF Has(cl, k) THEN [cl EXCEPT ![k].rdy = n, ![k].pend = @ \ {n}, ![k].was = @ \cup {cl[k].rdy}] ELSE cl
   /\ UNCHANGED <<minfo, tq, owed, copying, chan, top, cust, done, stash>>
 
 \* the pump of k has been signalled (ReadyStateChan) after a RDY change / CLS
